@@ -777,6 +777,10 @@ class SymExec:
         self._nloops += 1
 
         def elem(x):
+            if isinstance(x, ast.BoolOp) and isinstance(x.op, ast.Or) and len(x.values) == 2 and \
+               ((isinstance(x.values[1], (ast.Tuple, ast.List)) and not x.values[1].elts) or
+                    (isinstance(x.values[1], ast.Constant) and x.values[1].value == '')):
+                return elem(x.values[0])        # `X or ()`: the elements are those of X (nothing when X is empty / None)
             if isinstance(x, ast.Call) and isinstance(x.func, ast.Name) and x.func.id == 'zip' and not x.keywords:
                 return ast.Tuple(elts=[elem(a) for a in x.args], ctx=ast.Load())
             if isinstance(x, ast.Call) and isinstance(x.func, ast.Name) and x.func.id == 'enumerate' and \
@@ -1850,6 +1854,59 @@ def simplify(e):
            -len(n.value.elts) <= n.slice.value < len(n.value.elts) and \
            not any(isinstance(x, ast.Starred) for x in n.value.elts):
             return simplify(n.value.elts[n.slice.value])
+        if isinstance(n, ast.Call) and any(k_.arg is None for k_ in n.keywords):
+            # f(a, **dict(k=v)) / f(a, **{'k': v}) / f(a, **{}): the keywords written out
+            kws, changed = [], False
+            for k_ in n.keywords:
+                v_ = k_.value
+                if k_.arg is None and isinstance(v_, ast.Call) and isinstance(v_.func, ast.Name) and v_.func.id == 'dict' and \
+                   not v_.args and all(x_.arg is not None for x_ in v_.keywords):
+                    kws += list(v_.keywords)
+                    changed = True
+                elif k_.arg is None and isinstance(v_, ast.Dict) and all(
+                        isinstance(x_, ast.Constant) and isinstance(x_.value, str) and x_.value.isidentifier() for x_ in v_.keys):
+                    kws += [ast.keyword(arg=x_.value, value=y_) for x_, y_ in zip(v_.keys, v_.values)]
+                    changed = True
+                else:
+                    kws.append(k_)
+            if changed:
+                return simplify(ast.Call(func=n.func, args=n.args, keywords=kws))
+        # S.partition(',') in terms of the fields P = S.split(','):  [0] is P[0];  [1] (the separator found) is true
+        # exactly when there are at least two fields;  [2] is P[1] when there are two fields, and contains another
+        # separator exactly when there are more
+        def _partition_of(x_):
+            if isinstance(x_, ast.Subscript) and isinstance(x_.slice, ast.Constant) and x_.slice.value in (0, 1, 2) and \
+               isinstance(x_.value, ast.Call) and isinstance(x_.value.func, ast.Attribute) and x_.value.func.attr == 'partition' and \
+               len(x_.value.args) == 1 and isinstance(x_.value.args[0], ast.Constant) and isinstance(x_.value.args[0].value, str) \
+               and not x_.value.keywords:
+                split = ast.Call(func=ast.Attribute(value=x_.value.func.value, attr='split', ctx=ast.Load()),
+                                 args=[x_.value.args[0]], keywords=[])
+                return split, x_.slice.value, x_.value.args[0].value
+            return None
+        if isinstance(n, ast.Compare) and len(n.ops) == 1 and isinstance(n.ops[0], (ast.In, ast.NotIn)) and \
+           isinstance(n.left, ast.Constant) and isinstance(n.left.value, str) and isinstance(n.comparators[0], ast.Call) and \
+           isinstance(n.comparators[0].func, ast.Attribute) and n.comparators[0].func.attr == 'join' and \
+           isinstance(n.comparators[0].func.value, ast.Constant) and n.comparators[0].func.value.value == n.left.value and \
+           len(n.comparators[0].args) == 1:
+            # sep in sep.join(P[a:]) with P = S.split(sep): the fields hold no separator, so: more than one field joined
+            a0 = n.comparators[0].args[0]
+            if isinstance(a0, ast.Subscript) and isinstance(a0.slice, ast.Slice) and a0.slice.upper is None and a0.slice.step is None \
+               and isinstance(a0.slice.lower, ast.Constant) and isinstance(a0.slice.lower.value, int) and \
+               isinstance(a0.value, ast.Call) and isinstance(a0.value.func, ast.Attribute) and a0.value.func.attr == 'split' and \
+               len(a0.value.args) == 1 and isinstance(a0.value.args[0], ast.Constant) and a0.value.args[0].value == n.left.value:
+                ln = ast.Call(func=ast.Name(id='len', ctx=ast.Load()), args=[a0.value], keywords=[])
+                return ast.Compare(left=ln, ops=[ast.Gt() if isinstance(n.ops[0], ast.In) else ast.LtE()],
+                                   comparators=[ast.Constant(value=a0.slice.lower.value + 1)])
+        if _partition_of(n) is not None:
+            split, i_, sep_ = _partition_of(n)
+            if i_ == 0:
+                return ast.Subscript(value=split, slice=ast.Constant(value=0), ctx=ast.Load())
+            if i_ == 1:
+                return ast.Compare(left=ast.Call(func=ast.Name(id='len', ctx=ast.Load()), args=[split], keywords=[]),
+                                   ops=[ast.GtE()], comparators=[ast.Constant(value=2)])
+            # everything after the first separator: the remaining fields, joined again
+            rest = ast.Subscript(value=split, slice=ast.Slice(lower=ast.Constant(value=1), upper=None, step=None), ctx=ast.Load())
+            return ast.Call(func=ast.Attribute(value=ast.Constant(value=sep_), attr='join', ctx=ast.Load()), args=[rest], keywords=[])
         if isinstance(n, ast.Call) and isinstance(n.func, ast.Attribute) and n.func.attr == '__new__' and len(n.args) == 1 and \
            not n.keywords and norm(n.func.value) in (norm(n.args[0]), 'object'):
             return ast.Call(func=ast.Name(id='_bare', ctx=ast.Load()), args=[n.args[0]], keywords=[])
